@@ -132,6 +132,8 @@ func c07Render(c c07Case, r *rand.Rand) string {
 			arg = ""
 		case "macro":
 			arg = "%{tx.missing}"
+		case "openmacro":
+			arg = "%{"
 		case "weird":
 			arg = "\\ (|[ \xff%zz -5 999999999999999999999"
 		case "negated":
@@ -153,6 +155,16 @@ func c07Render(c c07Case, r *rand.Rand) string {
 			spell = a + ":"
 		case "macro":
 			spell = a + ":'%{tx.x}%{'"
+		case "openmacro":
+			spell = a + ":'%{'"
+			if a == "setvar" {
+				spell = "setvar:'tx.a=%{'"
+			}
+		case "emptymacro":
+			spell = a + ":'%{}'"
+			if a == "setvar" {
+				spell = "setvar:'tx.a=%{tx.empty}',setvar:'tx.b=%{request_headers.user-agent}'"
+			}
 		case "plus":
 			spell = a + ":'tx.n=+%{tx.missing}'"
 		case "minus":
